@@ -250,8 +250,12 @@ func (g *gen) queue(nops int) {
 			g.line("qnext")
 		case p < 85:
 			g.line("load")
-		case p < 95:
+		case p < 92:
 			g.line("restart")
+		case p < 94:
+			g.line("restart max=%d", 1+g.r.Intn(3))
+		case p < 95:
+			g.line("fail put=%d", 1+g.r.Intn(2))
 		case p < 97:
 			g.line("add txs=-")
 		default:
@@ -268,7 +272,8 @@ func (g *gen) malformed() {
 		"next", "next id=0g", "frobnicate x=1", "crash-submit at=2 id=- txs=01", "crash-submit id=- txs=01", "crash-next at=x id=-",
 		"crash-next id=-", "add txs=01", "qnext", "load", "qdrain", "drain", "drain id=q", "submit id=" + hx.Hex(chainID) + " txs=01,,02",
 		"submit id=" + hx.Hex(chainID) + " txs=01,0", "next id=" + hx.Hex(chainID) + " extra=1", "restart now=1",
-		"submit id=" + hx.Hex(chainID) + " txs=.,.", "submit id=" + hx.Hex(chainID) + " txs=.", "submit id=" + hx.Hex(chainID) + " txs=AB,cd",
+		"restart max=-1", "restart max=", "restart max=1000000", "fail put=x", "fail del=1x", "fail", "fail put=1 del=", "crash-next at=1 id=- max=zz",
+		"crash-submit at=0 id=- txs=01 max=", "submit id=" + hx.Hex(chainID) + " txs=.,.", "submit id=" + hx.Hex(chainID) + " txs=.", "submit id=" + hx.Hex(chainID) + " txs=AB,cd",
 	}
 	for _, i := range g.r.Perm(len(junk)) {
 		g.line("%s", junk[i])
@@ -360,6 +365,119 @@ func (g *gen) fixed() {
 	g.line("crash-next at=0 id=%s", id)
 	g.line("crash-submit at=1 id=%s txs=aa05", id)
 	g.drain()
+	// a restart with a smaller queue bound than the number of pending batches: all of them come back, in order
+	g.reset("seq", 4)
+	c3 := [][]byte{{3}}
+	three := [][][]byte{a, b, c3}
+	sortByHash(three)
+	for _, x := range three {
+		g.submit(x)
+	}
+	g.line("restart max=1")
+	g.line("submit id=%s txs=aa06", id) // refused: 3 pending, bound 1
+	g.drain()
+	g.line("submit id=%s txs=aa06", id)
+	g.drain()
+	// a transient Delete error while three batches are pending: handed out in order all the same
+	g.reset("seq", 0)
+	for _, x := range three {
+		g.submit(x)
+	}
+	g.line("fail put=0 del=1")
+	g.next()
+	g.next()
+	g.next()
+	g.next()
+	// a transient Put error: refused, nothing stored, the retry is accepted; a restart in between
+	g.reset("seq", 2)
+	g.line("fail put=1 del=0")
+	g.line("submit id=%s txs=aa07", id)
+	g.line("restart")
+	g.line("submit id=%s txs=aa07", id)
+	g.line("fail put=2")
+	g.line("crash-submit at=1 id=%s txs=aa08", id)
+	g.drain()
+}
+
+// rebound: the node is restarted with ANOTHER queue bound (restart max=, crash-… max=), smaller than the number of
+// pending batches included: everything pending must come back, in order (batches submitted in key order: free of the
+// first two findings), and admission follows the new bound.
+func (g *gen) rebound(rounds int) {
+	max := []int{3, 4, 6, 0}[g.r.Intn(4)]
+	g.reset("seq", max)
+	var pool [][][]byte
+	for i := 0; i < rounds*8+8; i++ {
+		pool = append(pool, g.fresh())
+	}
+	sortByHash(pool)
+	take := func() [][]byte { b := pool[0]; pool = pool[1:]; return b }
+	for i := 0; i < rounds; i++ {
+		k := 2 + g.r.Intn(4)
+		for j := 0; j < k; j++ {
+			g.submit(take())
+		}
+		nm := []int{1, 2, 1, 3, 0, 5}[g.r.Intn(6)]
+		switch g.r.Intn(5) {
+		case 0:
+			g.line("crash-submit at=%d id=%s txs=%s max=%d", g.r.Intn(2), hx.Hex(chainID), hx.HexList(take()), nm)
+		case 1:
+			g.line("crash-next at=0 id=%s max=%d", hx.Hex(chainID), nm)
+		default:
+			g.line("restart max=%d", nm)
+		}
+		g.submit(take()) // refused while more than the new bound are pending
+		for j := g.r.Intn(k + 1); j > 0; j-- {
+			g.next()
+		}
+		if g.r.Chance(30) {
+			g.line("restart")
+		}
+	}
+	g.drain()
+}
+
+// faults: transient datastore errors (fail put= del=).  kind 0: failing Puts only, with restarts and crashes (fully
+// monitored); kind 1: failing Puts and Deletes within one process lifetime (FIFO / exactly once must hold for every
+// pattern); kind 2: a failing Delete followed by a restart (outside the property's quantifier: correspondence only).
+func (g *gen) faults(nops, kind int) {
+	g.reset("seq", []int{0, 3, 5}[g.r.Intn(3)])
+	var pool [][][]byte
+	for i := 0; i < nops+4; i++ {
+		pool = append(pool, g.fresh())
+	}
+	sortByHash(pool)
+	take := func() [][]byte { b := pool[0]; pool = pool[1:]; return b }
+	for i := 0; i < nops; i++ {
+		p := g.r.Intn(100)
+		switch {
+		case p < 18:
+			put, del := 1+g.r.Intn(2), 0
+			if kind > 0 {
+				put, del = g.r.Intn(2), 1+g.r.Intn(2)
+			}
+			g.line("fail put=%d del=%d", put, del)
+		case p < 55:
+			g.submit(take())
+		case p < 85:
+			g.next()
+		case p < 92 && kind == 0:
+			g.line("restart")
+		case p < 96 && kind == 0:
+			g.line("crash-submit at=%d id=%s txs=%s", g.r.Intn(2), hx.Hex(chainID), hx.HexList(take()))
+		case kind == 0:
+			g.line("crash-next at=0 id=%s", hx.Hex(chainID))
+		default:
+			g.next()
+		}
+	}
+	if kind == 2 {
+		g.line("fail put=0 del=1")
+		g.submit(take())
+		g.next()
+		g.line("restart")
+		g.next()
+	}
+	g.drain()
 }
 
 // reuse: contents come back again and again but are never pending twice at the same time (the sharp hypothesis of
@@ -421,6 +539,12 @@ func genC10(r *hx.Rng, tier string, w io.Writer) {
 	}
 	for i := 0; i < 8*mul; i++ {
 		g.reuse(4 + r.Intn(8))
+	}
+	for i := 0; i < 10*mul; i++ {
+		g.rebound(2 + r.Intn(3))
+	}
+	for i := 0; i < 12*mul; i++ {
+		g.faults(ops/2+r.Intn(ops), i%3)
 	}
 	for i := 0; i < 12*mul; i++ {
 		g.bound(i%3 != 0, i%2 == 0)
